@@ -238,7 +238,9 @@ def parent_names_entry(run, twin=None):
                 names = SelfTop.names
                 _global_names = OuterTable(fl.gtab_has, 'names bound through global declarations')
             cls = Sm.ClassScope if kind == 'class' else ModSc if kind == 'module' else Sm.FuncScope
-            sc = cls.__new__(cls)
+            sc = loader.bare_instance(cls)
+            if kind == 'module':
+                sc._global_names = ModSc._global_names
             sc.parent = None if kind == 'no-parent' else Parent()
             sc.top = Top() if kind != 'module' else sc
             sc.locals = SymSet(fl.local, 'locals')
